@@ -168,6 +168,8 @@ def triage(c, failed, prop, tier):
                 best = (n, v)
         if best:
             witness = best
+    else:
+        found = {}
     for f in failed:
         safe = f["name"].replace("/", "_").replace(":", "_")
         path = os.path.join("replays", f"{safe}.json")
@@ -176,8 +178,13 @@ def triage(c, failed, prop, tier):
                "solver": {"result": f["result"], "backend": f["backend"], "seconds": f["seconds"]},
                "counter_model": f["model"], "bmc_depth": c.bmc_depth}
         reproduced = False
-        if witness:
-            n, (t, trace) = witness
+        mine = None                       # a witness for this obligation's own clause, if the search found one
+        own = f["name"].rsplit("/", 1)[1]
+        for key in ("not:" + own, "notinv:" + own):
+            if found.get(key) is not None:
+                mine = (key, found[key])
+        if mine or witness:
+            n, (t, trace) = mine or witness
             doc["witness"] = {"target": n, "violation_cycle": t, "trace": trace}
             try:
                 rep = sim.replay(c, trace)
@@ -226,6 +233,8 @@ def _triage_task(ci):
 def main(prop, tier, seed):
     t_start = time.time()
     os.chdir(ROOT)
+    for old in glob.glob(os.path.join(ROOT, "replays", f"{prop}_*.json")):
+        os.unlink(old)
     mod = load(prop)
     ctxs, problems = build_contracts(mod, prop, tier, seed)
     global _CTX
